@@ -64,6 +64,9 @@ STRENGTHENED = {
  "C24-f": "after the transitions were also driven through the daemon's event handlers (handleEvent / connectionIntroduced on a reduced Daemon; new verif hook)",
  "C26-f": "after eviction pressure on a full list with LastSeen ties, trusted peers and differing retry counters was added",
  "C33-f": "C23 as first built; C33 after the serving side was run under outgoing-message limits around the reply size",
+ "C29-f": "after every paged query was also run through the verbose path (Visor.GetTransactionsWithInputs) with pages N+1, N+2, 2^32, 2^63, MaxUint64 and MaxUint64/size",
+ "C32-f": "first reported without a failing input (regenerated fact 'every blocking step of Strand watches quit' false); concrete replay after workloads with calls queued on the strand for more than a second at Shutdown",
+ "C20-f": "as first built (with the retry-after-crash scenarios of round 5)",
  "C07-b": "after the balance view (GetBalanceOfAddresses) joined the whole-state digest and the model",
 }
 rows = []
